@@ -117,16 +117,20 @@ Definition g_crash (t : string) : crash :=
   else if String.eqb t "KeyError" then KeyError
   else AssertionError.
 
+Definition g_pscale (v : val) : option pscale :=
+  match v with
+  | VT "notdict" => Some SNotDict
+  | VT "nosharding" => Some SNoSharding
+  | VT "shardingbad" => Some SShardingBad
+  | VL [VT "type"; VS t] => Some (SType (Some t))
+  | VL [VT "type"; VT _] => Some (SType None)
+  | _ => None end.
 Definition g_pinfo (v : val) : option pinfo :=
   match v with
   | VT "badjson" => Some PBadJson
+  | VT "notdict" => Some PNotDict
   | VL [VT "crash"; VT k] => Some (PCrash (g_crash k))
-  | VL [VT "scales"; VL l] =>
-      option_map PScales
-        (all_some (map (fun e => match e with
-                                 | VT "none" => Some None
-                                 | VS t => Some (Some t)
-                                 | _ => None end) l))
+  | VL [VT "scales"; VL l] => option_map PScales (all_some (map g_pscale l))
   | _ => None end.
 
 Definition info_table := list (list N * pinfo).
